@@ -18,7 +18,7 @@ import warnings
 VERIF = os.path.dirname(os.path.dirname(os.path.abspath(__file__)))
 LEAN = os.path.join(VERIF, "lean")
 BUILD = os.path.join(VERIF, "build")
-EVID = os.path.join(VERIF, "evidence")
+EVID = os.environ.get("VERIF_EVIDENCE_DIR") or os.path.join(VERIF, "evidence")  # override: runs against seeded changes
 REPLAYS = os.path.join(VERIF, "replays")
 DRIVER = os.path.join(LEAN, ".lake", "build", "bin", "unytmodel")
 PY = "/venv/bin/python"
